@@ -300,6 +300,101 @@ def make_for_index_rule(iter_text, elem_prefix="&"):
     return rule
 
 
+def make_ghost_arg_rule(names, skip_after=(), arg="Tracked(w)", param="Tracked(w): Tracked<&mut World>"):
+    """R-ghost-arg: every definition `fn NAME(..)` with NAME in `names` gets the trailing ghost parameter
+    and every call `NAME(..)` / `.NAME(..)` / `NAME::<T>(..)` the trailing ghost argument.
+    skip_after: {NAME: [receiver idents]} -- calls `<recv>.NAME(` are left alone (same method name on a
+    container that does not touch the World)."""
+    names = set(names)
+
+    def rule(toks, lo, hi, edits, log, it=None):
+        s = sig_idx(toks, lo, hi)
+        for n, i in enumerate(s):
+            t = toks[i]
+            if t.kind != "id" or t.text not in names:
+                continue
+            m = n + 1
+            if m < len(s) and toks[s[m]].text == "::" and m + 1 < len(s) and toks[s[m + 1]].text == "<":
+                depth = 0
+                m += 1
+                while m < len(s):
+                    if toks[s[m]].text == "<":
+                        depth += 1
+                    elif toks[s[m]].text == ">":
+                        depth -= 1
+                        if depth == 0:
+                            m += 1
+                            break
+                    elif toks[s[m]].text == ">>":
+                        depth -= 2
+                        if depth <= 0:
+                            m += 1
+                            break
+                    m += 1
+            is_def = n > 0 and toks[s[n - 1]].text == "fn"
+            if is_def and m < len(s) and toks[s[m]].text == "<":
+                depth = 0
+                while m < len(s):
+                    if toks[s[m]].text == "<":
+                        depth += 1
+                    elif toks[s[m]].text == ">":
+                        depth -= 1
+                        if depth == 0:
+                            m += 1
+                            break
+                    m += 1
+            if m >= len(s) or toks[s[m]].text != "(":
+                continue
+            if not is_def and n >= 2 and toks[s[n - 1]].text == "." and toks[s[n - 2]].text in skip_after.get(t.text, ()):
+                continue
+            if not is_def and n >= 1 and toks[s[n - 1]].text not in (".", "::") and n >= 1 and toks[s[n - 1]].kind == "id" and toks[s[n - 1]].text not in ("return", "in", "else", "match", "if", "unsafe"):
+                continue
+            op = s[m]
+            cl = match_close(toks, op)
+            last = prev_sig(toks, cl - 1, op)
+            sep = "" if toks[last].text in ("(", ",") else ", "
+            edits.ins_before(cl, sep + (param if is_def else arg), None)
+            log("R-ghost-arg: %s %s" % ("fn" if is_def else "call", t.text))
+    return rule
+
+
+def make_for_rule(name, matcher):
+    """Generic loop-header rewrite. matcher(iter_tokens_text, pat_text) -> (setup, cond, bind) or None."""
+    def rule(toks, lo, hi, edits, log, it=None):
+        s = sig_idx(toks, lo, hi)
+        for n, i in enumerate(s):
+            if not (toks[i].kind == "id" and toks[i].text == "for"):
+                continue
+            m = n + 1
+            while m < len(s) and not (toks[s[m]].kind == "id" and toks[s[m]].text == "in"):
+                m += 1
+            if m >= len(s):
+                continue
+            # iterable: tokens up to the body brace (first `{` at depth 0)
+            j = s[m] + 1
+            while j < hi:
+                u = toks[j]
+                if u.kind == "punct" and u.text in ("(", "["):
+                    j = match_close(toks, j) + 1
+                    continue
+                if u.kind == "punct" and u.text == "{":
+                    break
+                j += 1
+            if j >= hi:
+                continue
+            iter_text = " ".join(toks[k].text for k in range(s[m] + 1, j) if toks[k].kind not in WS)
+            pat = toktext(toks, s[n + 1], s[m]).strip()
+            r = matcher(iter_text, pat)
+            if r is None:
+                continue
+            setup, cond, bind = r
+            edits.delete(i, j)
+            edits.ins_before(i, "%s while %s " % (setup, cond), None)
+            edits.ins_after(j, " %s " % bind, None)
+            log("%s: for %s in %s" % (name, pat, iter_text))
+    return rule
+
+
 def make_call_rule(name, seq_text, new_callee, extra_arg):
     """R-call: `<seq_text>(ARGS)` -> `<new_callee>(ARGS<extra_arg>)` (used for R-prealloc and the
     World-threading rule R-ghost-arg)."""
@@ -427,7 +522,10 @@ def stmt_end_after(toks, i, hi):
         if u.kind == "punct" and u.text in ("(", "[", "{"):
             j = match_close(toks, j) + 1
             continue
-        if u.kind == "punct" and u.text in (")", "]", "}"):
+        if u.kind == "punct" and u.text in (")", "]"):
+            j += 1      # the anchor was inside a parenthesised part of the statement
+            continue
+        if u.kind == "punct" and u.text == "}":
             raise LostAnchor("statement has no terminating ';' in its block")
         if u.kind == "punct" and u.text == ";":
             return j
@@ -753,7 +851,7 @@ class Generator:
             if arrow is None:
                 edits.ins_after(pc, " -> (%s: ())" % blk.ret, sp)
             else:
-                edits.ins_before(ret_lo, "(%s: " % blk.ret, sp)
+                edits.before.setdefault(ret_lo, []).insert(0, ("(%s: " % blk.ret, sp))
                 edits.ins_after(ret_hi - 1, ")", sp)
         clauses = []
         for c in blk.clauses:
